@@ -2,8 +2,8 @@
     main last; imported packages first and once.
     Only theorem statements, each closed by [exact] of a lemma of Init/Proofs.v.
 
-    Y = yaegi's mechanism (interp/cfg.go genGlobalVarDecl + getVarDependencies, program.go Execute,
-        src.go importSrc), G = the Go specification as implemented by the Go toolchain (Init/Model.v). *)
+    Y = yaegi's mechanism (interp/cfg.go genGlobalVarDecl, with the fix "restart the scan after each
+        emitted variable", + getVarDependencies, program.go Execute, src.go importSrc), G = the Go specification as implemented by the Go toolchain (Init/Model.v). *)
 From Coq Require Import NArith List Bool Permutation.
 From Verif Require Import Init.Model Init.Proofs.
 Import ListNotations.
@@ -15,7 +15,7 @@ Definition C15_statement : Prop := forall g : program, y_trace g = g_trace g.
 (** ** Partial: where yaegi and Go provably agree (all declaration lists, all import graphs) *)
 
 (** Whole programs: packages listed in import-path order which is also yaegi's loading order, and
-    every package either already sorted or plain with no ready variable stepped over. *)
+    every package either already sorted or plain (in any order of declaration). *)
 Theorem C15_program_partial : forall g, program_side g = true -> y_trace g = g_trace g.
 Proof. exact program_agree. Qed.
 Print Assumptions C15_program_partial.
@@ -45,30 +45,34 @@ Proof. exact sorted_inhabited. Qed.
 Print Assumptions C15_sorted_side_condition_inhabited.
 
 (** One package, any order of declaration: no function-mediated dependency, one variable per spec,
-    no misleading identifier, and yaegi's passes never step over a variable that has become ready. *)
-Theorem C15_partial : forall p, plain p = true -> no_skipped_ready p = true -> y_order p = g_order p.
+    no misleading identifier.  (Before the fix of genGlobalVarDecl this needed the further side
+    condition "no pass steps over a variable that has become ready".) *)
+Theorem C15_partial : forall p, plain p = true -> y_order p = g_order p.
 Proof. exact plain_agree. Qed.
 Print Assumptions C15_partial.
 
 Theorem C15_partial_side_condition_inhabited :
-  plain w_plain = true /\ no_skipped_ready w_plain = true /\ decl_sorted w_plain = false
-  /\ y_order w_plain = Some [2; 3; 1]%N.
+  plain w_plain = true /\ decl_sorted w_plain = false /\ y_order w_plain = Some [2; 3; 1]%N.
 Proof. exact plain_inhabited. Qed.
 Print Assumptions C15_partial_side_condition_inhabited.
 
-(** The same on any dependency graph: repeated stable-partition passes = earliest-ready-first,
-    provided no pass steps over a ready node (emitted and left-over nodes both agree). *)
-Theorem C15_schedule_partial :
-  forall nodes, loop_ok (S (length nodes)) [] nodes = true -> y_sched nodes = g_sched nodes.
+(** The scheduling loop itself is correct at full strength: on every dependency graph the repaired
+    loop of genGlobalVarDecl emits the nodes, and leaves nodes over, exactly like "repeatedly the
+    earliest ready variable".  What remains partial is the dependency graph yaegi builds. *)
+Theorem C15_schedule_full : forall nodes, y_sched nodes = g_sched nodes.
 Proof. exact sched_agree. Qed.
-Print Assumptions C15_schedule_partial.
+Print Assumptions C15_schedule_full.
 
-(** The small repair proposed in the report (restart the scan after each emitted variable; [r_sched]
-    transcribes the repaired loop, the code is unchanged): on every dependency graph it schedules
-    exactly like the specification, so [C15_partial] would hold without [no_skipped_ready]. *)
-Theorem C15_repair_schedule_full : forall nodes, r_sched nodes = g_sched nodes.
-Proof. exact repair_agree. Qed.
-Print Assumptions C15_repair_schedule_full.
+(** Regression for the repaired defect (finding C15-skipped-ready, fixed):
+    var a = c; var b = a; var c = 1; var d = 2 is now initialised in Go's order c a b d; the loop as
+    it was before the fix gave c d a b.  The program is case 1 of every run of the harness, in the
+    main stream, so a return of the defect is a violation. *)
+Theorem C15_direct_regression :
+  y_order w_direct = Some [3; 1; 2; 4]%N /\ g_order w_direct = Some [3; 1; 2; 4]%N
+  /\ plain w_direct = true /\ decl_sorted w_direct = false
+  /\ logs_of (old_sched (y_nodes w_direct)) = Some [3; 4; 1; 2]%N.
+Proof. exact direct_regression. Qed.
+Print Assumptions C15_direct_regression.
 
 (** Packages: if the packages are listed in import-path order, each after its imports, and yaegi
     loads them in that order, Go initialises them in that order too. *)
@@ -130,17 +134,10 @@ Print Assumptions C15_import_once_inhabited.
 (** ** Refutations of the full statement on the faithful model (each replayed on the implementation
        and on compiled Go by the harness, stream "witness") *)
 
-(** var a = c; var b = a; var c = 1; var d = 2 : Go c a b d, yaegi c d a b (direct references only). *)
-Theorem C15_refuted_direct :
-  y_order w_direct = Some [3; 4; 1; 2]%N /\ g_order w_direct = Some [3; 1; 2; 4]%N
-  /\ plain w_direct = true /\ no_skipped_ready w_direct = false.
-Proof. exact refuted_direct. Qed.
-Print Assumptions C15_refuted_direct.
-
 (** var a = f(); var b = 1; func f() int { return b } : Go b a, yaegi a b. *)
 Theorem C15_refuted_through_func :
   y_order w_func = Some [1; 2]%N /\ g_order w_func = Some [2; 1]%N
-  /\ no_skipped_ready w_func = true /\ plain w_func = false.
+  /\ plain w_func = false /\ decl_sorted w_func = false.
 Proof. exact refuted_through_func. Qed.
 Print Assumptions C15_refuted_through_func.
 
